@@ -305,8 +305,12 @@ fn fields_example(
             Ok(quote!(( #(#field_values ,)* #maybe_phantom )))
         }
         (true, true) => {
-            // no fields
-            Ok(quote!())
+            // no fields: a unit struct still carries the marker for unused type params
+            if needs_phantom_data {
+                Ok(quote!((::core::marker::PhantomData)))
+            } else {
+                Ok(quote!())
+            }
         }
         (false, false) => {
             // mixed fields
